@@ -98,8 +98,8 @@ def _close(a, b):
         return True, 0.0
     if not (np.all(np.isfinite(b))):
         return True, 0.0            # reference itself is not finite: nothing to compare
-    sc = np.max(np.abs(b)) + 1e-300
-    e = float(np.max(np.abs(a - b)) / sc)
+    sc = float(np.max(np.abs(b))) + 1e-300          # python floats: a float32 result would round 1e-300 to 0
+    e = float(np.max(np.abs(a - b))) / sc
     return e <= TOL, e
 
 
